@@ -415,6 +415,13 @@ def cmeasure_cases(draw, max_width=4, max_unitary=10, max_meas=3, depth=2, cap_m
     gates = draw(progs(width, max_unitary, max_meas, depth, ctrl is not None, angle=_angles(), prelude=True, min_meas=1))
     if ctrl is not None and not any(g["n"] == "CMEASURE" and g.get("d") is None for g in gates):
         gates.insert(draw(st.integers(0, len(gates))), {"n": "CMEASURE", "t": [draw(st.integers(0, width - 1))], "c": None, "p": None})
+    if ctrl is not None and draw(st.booleans()) and not any(g["n"] == "CMEASURE" and g.get("d") is not None for g in gates):
+        # both styles in one circuit: a dictionary-controlled gate (its dictionary decides) next to the circuit-level control
+        q = draw(st.integers(0, width - 1))
+        gates.insert(draw(st.integers(0, len(gates))),
+                     {"n": "CMEASURE", "t": [q], "c": None, "p": None,
+                      "d": {"0": draw(progs(width, 2, 1, max(depth - 1, 0), False, angle=_angles())),
+                            "1": draw(progs(width, 2, 1, max(depth - 1, 0), False, angle=_angles()))}})
     if ctrl is None and not any(g["n"] == "CMEASURE" for g in gates):
         q = draw(st.integers(0, width - 1))
         gates.insert(draw(st.integers(0, len(gates))),
